@@ -12,7 +12,7 @@ import (
 func init() {
 	register("c01", "header sweep: every setter x every value of the byte it touches x every argument value "+
 		"(in-range arguments checked by the direct oracle: getter returns the value set, every other getter and byte unchanged); "+
-		"messages: structured generator (empty/non-UTF8/long strings, 0..64 metadata entries, payload sizes around the pool classes, "+
+		"messages: structured generator (empty/non-UTF8/long strings, 0..64 metadata entries, payload sizes around the pool classes, payloads that look compressed already (gzip magic, header stub, real short gzip stream, magic + noise), "+
 		"compress types None/Gzip/toy/failing/unregistered), encoded by Encode and by WriteTo, decoded by Read; "+
 		"a case is non-trivial if it is a setter application or a message with at least one non-empty section; distinct = distinct input line",
 		runC01)
